@@ -230,6 +230,17 @@ def t_matrix():
                 twins(stats, ast, doc, text, CTX)
                 n += 1
             stats.nt("matrix", cname, vk, pos)
+    # every flag subset of =~ on subjects that need each flag (and combinations of them)
+    subjects = ["abc", "ABC", "a\nc", "A\nC", "\u00e9\u00e9", "\u00c9\u00e9", "ab\nAB", "x"]
+    for k in range(0, 5):
+        for combo in itertools.combinations("aims", k):
+            fl = "".join(combo)
+            for pat in ("A.C", "a.c", "\\w\\w", "\u00e9\u00c9", "ab.ab", "X"):
+                ast = ["q", "$", [["c", [["f", ["re", SELF, pat, fl]]]]]]
+                for text in (Renderer(None).query(ast, top=True), "$[?@ =~ /%s/%s]" % (pat, fl[::-1])):
+                    judge(stats, ast, list(subjects), text, "regex-flags", extra=None)
+                    n += 1
+                stats.nt("flags", fl, pat)
     # fake root at top level
     for vk, v in KINDS.items():
         for f in (["test", SELF], ["cmp", "==", SELF, ["lit", 1]], ["cmp", ">", ["call", "length", [SELF]], ["lit", 0]], ["test", A]):
